@@ -164,6 +164,9 @@ def r16_2(ctx, g):
             continue
         rv = p.ret()
         cs = [c for c in path_calls(p) if c[2] == gki.path]
+        if len(cs) == 0:
+            ctx.undecided(R, 'delegation', 'get_key does not go through the public get_key_into any more (the pair was redesigned)', fn=gk)
+            continue
         if len(cs) != 1:
             ctx.violation(R, 'delegation', 'get_key does not call get_key_into exactly once on a path', fn=gk)
             continue
@@ -184,6 +187,14 @@ def r16_2(ctx, g):
             continue
         rv = p.ret()
         ok = rv[0] == 'call' and g is not None and rv[1] == g.path and rv[2][1] == ('param', gki.local_name(2), 2) and rv[2][2] == ('param', gki.local_name(3), 3)
+        if not ok and g is None:
+            ctx.undecided(R, 'passthrough', 'the descent behind get_key_into was not identified', fn=gki)
+            continue
+        if not ok and g is not None:
+            # the descent's result may be adapted (`.is_some()` on an Option-returning descent): the arguments must still be forwarded
+            inner = [x for x in walk(rv) if x[0] == 'call' and x[1] == g.path]
+            if len(inner) == 1 and inner[0][2][1] == ('param', gki.local_name(2), 2) and inner[0][2][2] == ('param', gki.local_name(3), 3):
+                ok = True
         ctx.check(R, ok, 'passthrough', 'get_key_into does not forward (value, buffer) unchanged to the descent: %s' % fmt(rv)[:120], fn=gki)
     if g is not None:
         bad = []
